@@ -280,3 +280,17 @@ Proof. unfold dec_subs. intros h. loc; first [apply local_subs_entry|apply progr
 Lemma progress_nalu : progress rd_nalu. Proof. intros a H. discriminate H. Qed.
 Lemma local_narr : local rd_narr.
 Proof. unfold rd_narr. loc; first [apply local_nalu|apply progress_nalu]. Qed.
+
+Lemma local_pairw w : local (rd_pairw w). Proof. unfold rd_pairw. loc. Qed.
+Lemma local_uuid : forall h, local (dec_uuid h).
+Proof.
+  unfold dec_uuid. intros h. apply local_bind; [apply local_rdB|intros u].
+  destruct (bytes_eqb u uuid_tfxd); [loc|].
+  destruct (bytes_eqb u uuid_tfrf).
+  { apply local_bind; [apply local_rd|intros vf]. apply local_bind; [apply local_rd|intros cnt].
+    apply local_bind; [apply local_many_const; apply local_pairw|intros es; apply local_pret]. }
+  destruct (bytes_eqb u uuid_piff).
+  { destruct (h_size h <? 16); [apply local_pfail|].
+    apply local_bind; [apply local_senc|intros [l0 rsv0]]. cbn [fst]. destruct l0; first [apply local_pfail|apply local_pret]. }
+  destruct (h_size h <? 24); [apply local_pfail|]. loc.
+Qed.
